@@ -1,15 +1,19 @@
 #!/bin/sh
 # verify_seeded.sh <worktree> <demo test name>: confirms (1) existing tests pass with the change,
 # (2) the demonstration fails with the change, (3) passes without it.
+# (uses patch files, not `git stash`: the stash is shared between all worktrees of a repository)
 wt="$1"; demo="$2"
 cd "$wt" || exit 2
+mkdir -p target
+git diff > target/.verify.patch
+[ -s target/.verify.patch ] || { echo "no uncommitted change in $wt"; exit 2; }
 echo "--- $wt: existing tests with the change"
 cargo test --offline --lib 2>&1 | grep "test result"
 cargo test --offline --doc 2>&1 | grep "test result"
 echo "--- demo with the change (expected: FAILED)"
 timeout 300 cargo test --offline --test "$demo" 2>&1 | grep "test result"
-git stash -q
+git apply -R target/.verify.patch || exit 2
 echo "--- demo without the change (expected: ok)"
 timeout 300 cargo test --offline --test "$demo" 2>&1 | grep "test result"
-git stash pop -q
-git status --short | grep -v "^??" 
+git apply target/.verify.patch
+git status --short | grep -v "^??"
